@@ -10,8 +10,10 @@ service has two variants (`Station.perTicket`: repaired = per-ticket timer / req
 import FlexModel.Sec.Lemmas
 import FlexModel.Sec.Groups
 import FlexModel.Sec.SignSpec
+import FlexModel.Sec.Origin
 import Generated.Sec
 import Generated.SecRx
+import Generated.RouterRx
 
 namespace Props.C05
 open FlexModel.Sec FlexModel.Sec.Store
@@ -376,6 +378,72 @@ example : Station.withinValidity { (default : Cert) with start := 100, durUs := 
     harness/sec_common.py drops the ssp).  Comparing whole entries (`{"psid": psid} in appPermissions`) re-opens this. -/
 theorem psid_guard_compares_projection : Generated.SecRx.psidGuardShape = ["psid-vs-projection"] := by decide
 
+/-! ## Round 5: every receiver configuration, every generation position -/
+
+/-- CERTIFICATE THEN DIGEST, ANY RECEIVER: a station that can verify the ticket - `R.hasSign` is NOT constrained: a
+    receive-only station (VerifyService built without a SignService: monitor, logger) is a receiver like any other -
+    accepts a certificate-carrying message of an honest ticket holder with the payload unchanged and, from then on, the
+    digest-signed messages of the same ticket (CAM / VAM between two inclusions, generic profile) -/
+theorem certificate_then_digest_any_receiver (cfg : Cfg) (R : Station) (c : Cert) (ht : TrustsTicket R.store c)
+    (m1 m2 : Msg) (h1 : HonestMsg m1 c) (hs1 : m1.signer = .certs [c]) (h2 : HonestMsg m2 c)
+    (hs2 : m2.signer = .digest c.id) (h37 : m2.psid ≠ 37) :
+    (R.verifyMsg cfg m1).2 = .ok { report := .success, certId := some c.id, plain := some m1.payload } ∧
+    ((R.verifyMsg cfg m1).1.verifyMsg cfg m2).2 =
+      .ok { report := .success, certId := some c.id, plain := some m2.payload } := by
+  obtain ⟨ha, ⟨a, hk⟩, hr⟩ := accept_with_certificate cfg R c ht m1 h1 hs1
+  exact ⟨ha, accept_digest_known hr h2 hs2 h37 hk⟩
+
+/-- the ticket a verified in-message certificate yields is STORED by the library function that verified it, whoever the
+    caller is and whatever else is wired into it (regenerated from the AST of certificate_library.py /
+    verify_service.py): in `verify_sequence_of_certificates` every `return` of a certificate object built from the
+    message is immediately preceded by `self.add_authorization_ticket(<it>)` (`learnSites`), and VerifyService consults the
+    library through the two functions of the model only - it does no storing of its own (`libraryUses`) -/
+theorem library_stores_the_ticket_it_verified :
+    Generated.SecRx.learnSites ≠ [] ∧ Generated.SecRx.learnSites.all id = true ∧
+    Generated.SecRx.libraryUses = ["get_authorization_ticket_by_hashedid8", "verify_sequence_of_certificates"] := by
+  decide
+
+/-- EVERY GENERATION POSITION: whatever the forwarding decision of the source operation - source inside the destination
+    area, or OUTSIDE it with greedy forwarding deciding to transmit -, a frame handed to the link layer for a signed DENM
+    is the secured message itself, and every receiver that can verify the sender's ticket passes it through its security
+    gate with the payload unchanged -/
+theorem originated_denm_accepted_from_every_position (cfg : Cfg) {S S' : Station} {gt pl : Nat} {m : Msg}
+    (h : S.signDenm true 37 gt pl = (S', .ok m)) {a : SC}
+    (ha : Station.presentAt S.store.own 37 = .ok (some a)) (hval : Station.withinValidity a.c gt = true)
+    (d : SrcDecision) (plain : Nat) (p : Packet) (hp : originate d (some m) plain = some p)
+    (R : Station) (ht : TrustsTicket R.store a.c) (en : Bool) :
+    p = .secured (some m) ∧ (gate cfg en true R p).2 = .pass pl := by
+  have hpm : p = .secured (some m) := originate_some hp
+  refine ⟨hpm, ?_⟩
+  have hv := sign_then_verify_denm cfg h ha hval R ht
+  subst hpm
+  unfold gate
+  simp only [Bool.not_true, Bool.false_eq_true, if_false]
+  cases hr : R.verifyMsg cfg m with
+  | mk R' o =>
+    rw [hr] at hv
+    simp only at hv
+    subst hv
+    simp
+
+/-- the frame is sent in both forwarding branches unless the packet is buffered or greedy forwarding holds it back -/
+example (m : Msg) : originate ⟨false, .nonArea, true⟩ (some m) 0 = some (.secured (some m)) ∧
+    originate ⟨false, .area, false⟩ (some m) 0 = some (.secured (some m)) := by
+  constructor <;> rfl
+
+/-- what the seeded change C05-m9 did: a source operation that assembles its frame through the forwarders' helper emits
+    `NH = SECURED + plain headers` (receive context empty at a source) - a frame no receiver can decode -/
+example (cfg : Cfg) (en : Bool) (R : Station) (pl : Nat) :
+    (gate cfg en true R (viaForwardHelper none true pl)).2 = .raise "parse" := rfl
+
+/-- source operations assemble their own GN-PDU: `_forward_pdu` (envelope from the RECEIVE context) is called by the
+    forwarders of the receive path only - regenerated by harness/gen_router.py (C06's pass) on every run of C05 too -/
+theorem source_operations_assemble_their_own_pdu :
+    Generated.RouterRx.forwardPduCallers.all (fun f =>
+      ["gn_area_cbf_forwarding", "gn_data_forward_gbc", "gn_data_indicate_guc", "gn_data_indicate_gac",
+        "gn_data_indicate_ls_request", "gn_data_indicate_ls_reply", "gn_data_indicate_tsb"].contains f) = true := by
+  decide
+
 /-! ## Non-vacuity and the known finding C05-KF1 (executed inside the model by `decide`) -/
 
 def yRoot : Cert :=
@@ -452,6 +520,21 @@ def demoGroups : Nat × Bool × Option Nat × Option Nat :=
 /-- non-vacuity of `accept_under_multi_group_authority`: under an authority with groups {36,37} and {638} a ticket for
     {36, 638} – contained in NEITHER group alone – loads as own certificate, and its CAM and VAM are accepted (0, 0) -/
 example : demoGroups = (1, true, some 0, some 0) := by decide
+
+/-- a RECEIVE-ONLY station (no sign service, no own ticket) trusting root + AA -/
+def yMonitor : Station :=
+  { (({} : Station).run Cfg.fixed [.addRoot ⟨yRoot, none⟩, .addAA ⟨yAA, some yRoot⟩]) with hasSign := false }
+
+def demoMonitor : Bool × Option Nat × Bool × Option Nat × Nat :=
+  let s1 := (yStation 12).signCam 5000 36 100000500 1   -- certificate
+  let r1 := yMonitor.verifyMsg Cfg.fixed (msgOf s1)
+  let s2 := s1.1.signCam 5100 36 100000500 2            -- digest
+  let r2 := r1.1.verifyMsg Cfg.fixed (msgOf s2)
+  (isCert (msgOf s1), report r1, isCert (msgOf s2), report r2, r2.1.store.ats.length)
+
+/-- non-vacuity of `certificate_then_digest_any_receiver` for `hasSign = false`: the monitor accepts the certificate
+    CAM (0), stores the ticket and accepts the digest CAM 100 ms later (0) -/
+example : demoMonitor = (true, some 0, false, some 0, 1) := by decide
 
 /-- a station with SEPARATE tickets for CAMs (ITS-AID 36) and VAMs (638) under the two-group authority -/
 def yAtCam : Cert :=
